@@ -484,7 +484,7 @@ WRAPPERS = [
 
 def chain_terms(tier: str, max_nodes=None):
     """Long nested chains: f^k(x), (f o g)^k(x) for every ordered pair of wrappers.
-    Depths chosen to give about 5, 9, 21 (quick) and 65, 129, 257 nodes (thorough)."""
+    Depths chosen to give about 5, 9, 21 (quick) and 65 (pairs), 65, 129, 257 nodes (single wrappers) (thorough)."""
     if max_nodes is None:
         max_nodes = 257 if tier == "thorough" else 21
     targets = [n for n in (5, 9, 21, 65, 129, 257) if n <= max_nodes]
@@ -506,7 +506,7 @@ def chain_terms(tier: str, max_nodes=None):
             continue
         per = M.size(f(g(x))) - 1
         for tgt in targets:
-            if tgt > 65 and tier != "thorough":
+            if tgt > 65:          # pairs stop at 65 nodes; 129 and 257 nodes for the single-wrapper chains only
                 continue
             k = max(1, (tgt - 1) // per)
             push(f"({n1}.{n2})^{k}", _wrap_n(lambda t: f(g(t)), x, k))
